@@ -508,6 +508,45 @@ func (v *c13V) Validate() error {
 	return nil
 }
 
+// targets that unpack themselves: on failure (of their own Unpack, or of Validate afterwards) the
+// struct the caller passed keeps its previous field values
+type c13SelfU struct{ Min, Max int }
+
+func (u *c13SelfU) Unpack(c *ucfg.Config) error {
+	if v, err := c.Int("min", -1); err == nil {
+		u.Min = int(v)
+	}
+	if v, err := c.Int("max", -1); err == nil {
+		u.Max = int(v)
+	}
+	if u.Min > u.Max {
+		return fmt.Errorf("min > max")
+	}
+	return nil
+}
+
+type c13SelfV struct {
+	Name  string
+	Level int
+}
+
+func (u *c13SelfV) Unpack(c *ucfg.Config) error {
+	if v, err := c.String("name", -1); err == nil {
+		u.Name = v
+	}
+	if v, err := c.Int("level", -1); err == nil {
+		u.Level = int(v)
+	}
+	return nil
+}
+
+func (u *c13SelfV) Validate() error {
+	if u.Level > 10 {
+		return fmt.Errorf("level too high")
+	}
+	return nil
+}
+
 // c13TagSeq: one struct type read under two struct tag names. Under `config` the settings are
 // a, b (c ignored); under `alt` they are x, y (a ignored).
 type c13Alt1 struct {
@@ -546,6 +585,49 @@ func c13Extra() *core.Space {
 		return ""
 	}
 	cases := []tcase{
+		{"top-level target whose own Unpack fails after writing fields: unchanged", func() string {
+			t := &c13SelfU{Min: 5, Max: 10}
+			if err := mustCfg(M{"min": 50}).Unpack(t); err == nil {
+				return "expected failure"
+			}
+			if *t != (c13SelfU{5, 10}) {
+				return fmt.Sprintf("struct changed on failure: %+v", *t)
+			}
+			return ""
+		}},
+		{"top-level target whose own Unpack succeeds: fields updated, pre-filled ones visible to it", func() string {
+			t := &c13SelfU{Min: 5, Max: 10}
+			if err := mustCfg(M{"min": 7}).Unpack(t); err != nil {
+				return err.Error()
+			}
+			if *t != (c13SelfU{7, 10}) {
+				return fmt.Sprintf("%+v", *t)
+			}
+			return ""
+		}},
+		{"top-level self-unpacking target whose Validate fails afterwards: unchanged", func() string {
+			t := &c13SelfV{"old", 3}
+			if err := mustCfg(M{"name": "new", "level": 12}).Unpack(t); err == nil {
+				return "expected failure"
+			}
+			if *t != (c13SelfV{"old", 3}) {
+				return fmt.Sprintf("struct changed on failure: %+v", *t)
+			}
+			return ""
+		}},
+		{"self-unpacking struct as a field: failure leaves the outer struct unchanged", func() string {
+			t := &struct {
+				A int
+				U c13SelfU
+			}{A: 1, U: c13SelfU{5, 10}}
+			if err := mustCfg(M{"a": 2, "u": M{"min": 50}}).Unpack(t); err == nil {
+				return "expected failure"
+			}
+			if t.A != 1 || t.U != (c13SelfU{5, 10}) {
+				return fmt.Sprintf("struct changed on failure: %+v", *t)
+			}
+			return ""
+		}},
 		{"the StructTag option selects names and ignore flags anew on every call (alt, config, alt)", func() string {
 			return tagSeq("alt", func() (interface{}, func() string) {
 				t := &c13Alt1{A: 44, B: "old", C: 55}
